@@ -225,7 +225,7 @@ structure St where
   fails : List String
   sims : Nat
 
-def runCall (g : Gm) (m : Mdl) (st : St) (c : CallRec) : St :=
+def runCall (g : Gm) (m : Mdl) (bs : Nat) (st : St) (c : CallRec) : St :=
   let cn := comp g
   let rootD := findNode c.dump []
   let rootParts := match rootD with | some r => r.parts | none => []
@@ -269,6 +269,8 @@ def runCall (g : Gm) (m : Mdl) (st : St) (c : CallRec) : St :=
   let rootVs : List Rat := match rootD with | some r => r.acts.map (fun x => x.2) | none => []
   let bestM := if c.h == 0 then 0 else argmaxV (fun a => rootVs.getD a 0) rootVs.length
   let diffs := if bestM != c.ret then diffs ++ [s!"{cn} returned_action model={bestM} impl={c.ret}"] else diffs
+  -- POMCP: a belief built by `makeSampledBelief` (fresh call, restart) holds exactly `beliefSize_` particles
+  let diffs := if g.kind == 2 && !hit && rootParts.length != bs then diffs ++ [s!"{cn} root_belief_size model={bs} impl={rootParts.length}"] else diffs
   { t := t', prev := c.dump, budget := budget, rootStates := rootStates, diffs := diffs, fails := fails, sims := st.sims + c.iters }
 
 def emptyTree : Tree := Tree.fresh [] 0 0
@@ -277,14 +279,14 @@ def slackTol : Rat := 1 / 1000000000
 
 def run : P String := do
   let g ← pGm
-  let expl ← P.q; let _extra ← P.nat; let _ent ← P.bool
+  let expl ← P.q; let bs ← P.nat; let _ent ← P.bool
   let calls ← pCalls 64
   P.eof
   let st0 : St := { t := emptyTree, prev := [], budget := 0, rootStates := [], diffs := [], fails := [], sims := 0 }
-  let st := calls.foldl (runCall g (g.mdl expl none false)) st0
+  let st := calls.foldl (runCall g (g.mdl expl none false) bs) st0
   -- a run the strict selection rule rejects but a 1e-9 slack on the scores accepts: rounding of V decided a near-tie
   if !st.diffs.isEmpty && st.fails.isEmpty then
-    let st2 := calls.foldl (runCall g (g.mdl expl (some slackTol) false)) st0
+    let st2 := calls.foldl (runCall g (g.mdl expl (some slackTol) false) bs) st0
     if st2.diffs.isEmpty && st2.fails.isEmpty then return "skip ill_conditioned_uct_tie" else pure ()
   let v : Verdict := { tag := (if st.sims == 0 then "trivial" else comp g), diffs := st.diffs, fails := st.fails }
   return v.render
@@ -515,6 +517,39 @@ def lib : P String := do
   let v := v.diffIf (!bad.isEmpty) s!"libm double arithmetic of the driver differs from the implementation's at samples {bad.take 5}"
   return v.render
 
+/-- `rhead mode nS beliefParam ref head beliefSize_ mostCommon (pick res)* sync`: the head node of rPOMCP after one public
+    call, as the implementation holds it (private `sampleBelief_`, `beliefSize_`).  `mode` 0: built from the given belief
+    (`ref` = its support), 1: promoted child (`ref` = the child's particle map before the call), 2: restart from the uniform
+    belief.  Clauses (on the implementation's own data; `R.headOk_sound`, `R.headFreshOk_sound`, `R.sampleWalk_spec`,
+    `R.mostCommon_spec` say what they imply): the head's belief is exactly the promoted node's particles / inside the support
+    of the given belief, `beliefSize_` is its total, every state `sampleBelief()` returns is a particle with positive count,
+    `getMostCommonParticle()` has maximal count.  The exact walk and the exact scan are compared with the model (`diff`). -/
+def rhead : P String := do
+  let mode ← P.nat; let nS ← P.nat; let bp ← P.nat
+  let ref ← P.list pPair
+  let head ← P.list pPair
+  let bsz ← P.nat; let mc ← P.nat
+  let samples ← P.list pPair
+  let sync ← P.bool
+  P.eof
+  let cn := "rPOMCP"
+  let v : Verdict := { tag := "rhead" }
+  let okHead := if mode == 1 then R.headOk ref head bsz
+                else R.headFreshOk (if mode == 0 then ref.map (·.1) else List.range nS) head bp bsz
+  let what := if mode == 1 then "promoted child's particle map" else if mode == 0 then "support of the given belief" else "uniform restart"
+  let v := v.failIf (!okHead) s!"{cn} head_belief_inconsistent mode={mode} ({what}) ref={ref} sampleBelief_={head} beliefSize_={bsz} requested={bp}"
+  -- draws
+  let badState := samples.filter (fun pr => R.countOf head pr.2 == 0)
+  let v := v.failIf (!badState.isEmpty) s!"{cn} sampled_state_not_a_particle (pick,state)={badState.headD (0,0)} sampleBelief_={head}"
+  let v := v.diffIf (!sync) s!"{cn} head engine out of sync with the predicted draws"
+  let badWalk := samples.filter (fun pr => R.sampleWalk head (pr.1 : Int) != some pr.2)
+  let v := v.diffIf (sync && !badWalk.isEmpty) s!"{cn} sampleBelief walk (pick,state)={badWalk.headD (0,0)} model={R.sampleWalk head ((badWalk.headD (0,0)).1 : Int)} sampleBelief_={head}"
+  -- most common particle
+  let v := v.failIf (R.countOf head mc < R.maxCount head || (R.maxCount head > 0 && R.countOf head mc == 0))
+    s!"{cn} most_common_particle_wrong returned={mc} count={R.countOf head mc} max={R.maxCount head} sampleBelief_={head}"
+  let v := v.diffIf (R.mostCommon head != some mc) s!"{cn} getMostCommonParticle model={R.mostCommon head} impl={mc}"
+  return v.render
+
 def handle (toks : List String) : String :=
   let r := match toks with
     | "run" :: rest => P.run run rest
@@ -525,6 +560,7 @@ def handle (toks : List String) : String :=
     | "rcnt" :: rest => P.run rcnt rest
     | "trm" :: rest => P.run trm rest
     | "lib" :: rest => P.run lib rest
+    | "rhead" :: rest => P.run rhead rest
     | _ => none
   r.getD "bad-op"
 
